@@ -139,20 +139,22 @@ Definition k_live (tr : list event) : bool :=
 
 (** * K6: a stream is cancelled only for a reason attributable to this target:
       a Reconnect(name) or Remove(name) issued before, or its receive timeout.
-      One Reconnect call ends at most one stream. *)
+      Each Reconnect call ends at most one stream. *)
 
-Fixpoint k_cause (timeout : bool) (rc rm : bool) (tr : list event) : bool :=
+Fixpoint k_cause (timeout : bool) (rc : nat) (rm : bool) (tr : list event) : bool :=
   match tr with
   | [] => true
   | e :: tr' =>
       match e with
-      | EReconnectCalled => k_cause timeout true rm tr'
+      | EReconnectCalled => k_cause timeout (S rc) rm tr'
       | ERemoveCalled => k_cause timeout rc true tr'
-      | ERemoveReturned _ => k_cause timeout false false tr'
+      | ERemoveReturned _ => k_cause timeout 0 false tr'
       | ERecv RCancel =>
           if timeout || rm then k_cause timeout rc rm tr'
-          else if rc then k_cause timeout false rm tr'
-          else false
+          else match rc with
+               | S k => k_cause timeout k rm tr'
+               | O => false
+               end
       | _ => k_cause timeout rc rm tr'
       end
   end.
@@ -176,7 +178,7 @@ Definition k_tags (c : cfg) (tr : list event) : list N :=
   ++ (if k_silence false tr then [] else [4%N])
   ++ (if k_refuse false tr then [] else [5%N])
   ++ (if k_live tr then [] else [6%N])
-  ++ (if k_cause (c_timeout c) false false tr then []
+  ++ (if k_cause (c_timeout c) 0 false tr then []
       else if readded tr then [11%N] else [7%N]).
 
 Definition check_target (t : tcase) : list N :=
